@@ -46,7 +46,7 @@ EvRecover ==
        \cup Flag("C04_RemovedStayGone", \A i \in Ids : (~store[i].live /\ ~(pend.op = "write")) => ListedTs(i) = -1 \/ On(i))
        \cup Flag("C04_Resumes", \A i \in Ids : (store[i].live /\ ~On(i) /\ store[i].rc # <<>>) => /\ \E k \in 1..Len(E.attempted) : E.attempted[k] = i
                                                                                                      \* ... and again after a failure
-                                                                                                     /\ \E k \in 1..Len(E.attempted2) : E.attempted2[k] = i)
+                                                                                                     /\ \E k2 \in 1..Len(E.attempted2) : E.attempted2[k2] = i)
 Next == /\ l <= Len(Tr) /\ (EvCall \/ EvRet \/ EvCrash \/ EvRecover) /\ l' = l + 1 /\ UNCHANGED tid
 Spec == Init /\ [][Next]_vars
 AtEnd == l = Len(Tr) + 1
